@@ -33,7 +33,12 @@ def one(d):
         env = {**os.environ, "VERIF_REPO": root, "VERIF_WORKERS": os.environ.get("SEEDED_WORKERS", "5"),
                "VERIF_REPLAY_DIR": os.path.join(tmp, "replays"), "VERIF_EVIDENCE_DIR": os.path.join(tmp, "evidence")}
         env.pop("SIMKIT_REEXEC", None)
-        p = subprocess.run([PY, os.path.join(VERIF, "check.py"), prop, "--tier", "quick"], cwd=VERIF, env=env, capture_output=True, text=True, timeout=3600)
+        # a change delivered for one property that in fact breaks another one is decided by that other check (meta.decided_by)
+        for prop_ in meta.get("decided_by") or [prop]:
+            p = subprocess.run([PY, os.path.join(VERIF, "check.py"), prop_, "--tier", "quick"], cwd=VERIF, env=env, capture_output=True, text=True, timeout=3600)
+            out["decided_by"] = prop_
+            if p.returncode == 1:
+                break
         out["exit"] = p.returncode
         out["invariants"] = sorted({ln.strip().split()[0].split("=")[1] for ln in p.stdout.splitlines() if ln.strip().startswith("invariant=")})
         out["caught"] = p.returncode == 1 and any(ln.startswith("VIOLATION") for ln in p.stdout.splitlines())
